@@ -3,6 +3,7 @@
   Everything here holds for ARBITRARY values (no representation invariant is needed).
 -/
 import UnicLocale.Model.Locale
+import UnicLocale.Spec.Match
 
 namespace UL.Props.C11
 open UL
@@ -231,5 +232,37 @@ example : LangId.isMatch { language := some [101, 110] } { language := some [101
 example : LangId.isMatch { language := some [101, 110], region := some [85, 83] } { language := some [101, 110] }
     false true = true := by decide
 example : Language.isMatch (some [101, 110]) none false true = true := by decide
+
+/-! ### the executable oracle of the check (`Spec/Match.lean`) is the specification above -/
+
+theorem fieldOkB_iff (x y : Option Bytes) (ra rb : Bool) : Spec.fieldOkB x y ra rb = true ↔ fieldOk x y ra rb := by
+  unfold Spec.fieldOkB fieldOk
+  cases x <;> cases y <;> cases ra <;> cases rb <;> simp
+
+theorem variantsOkB_iff (x y : Option (List Bytes)) (ra rb : Bool) :
+    Spec.variantsOkB x y ra rb = true ↔ variantsOk x y ra rb := by
+  unfold Spec.variantsOkB variantsOk Spec.variantsEmptyB variantsEmpty
+  cases x with
+  | none => cases y with
+    | none => simp
+    | some l => cases l <;> cases ra <;> cases rb <;> simp
+  | some k => cases y with
+    | none => cases k <;> cases ra <;> cases rb <;> simp
+    | some l => cases k <;> cases l <;> cases ra <;> cases rb <;> simp
+
+theorem matchesB_iff_spec (a b : LangId) (ra rb : Bool) : Spec.matchesB a b ra rb = true ↔ specMatch a b ra rb := by
+  unfold Spec.matchesB specMatch
+  simp only [Bool.and_eq_true, fieldOkB_iff, variantsOkB_iff, and_assoc]
+
+/-- the model of `LanguageIdentifier::matches` computes the oracle, for arbitrary values -/
+theorem isMatch_eq_oracle (a b : LangId) (ra rb : Bool) : LangId.isMatch a b ra rb = Spec.matchesB a b ra rb := by
+  rw [Bool.eq_iff_iff, isMatch_iff_spec, matchesB_iff_spec]
+
+/-- the model of `Locale::matches` computes the oracle, for arbitrary values -/
+theorem locale_isMatch_eq_oracle (a b : Locale) (ra rb : Bool) :
+    Locale.isMatch a b ra rb = Spec.localeMatchesB a b ra rb := by
+  unfold Locale.isMatch Spec.localeMatchesB
+  rw [isMatch_eq_oracle]
+  cases ha : a.ext.priv <;> cases hb : b.ext.priv <;> simp
 
 end UL.Props.C11
